@@ -174,6 +174,44 @@ func Main(engines map[string]Engine, propEngine map[string]string) {
 		o.Workers = runtime.NumCPU()
 	}
 
+	if (o.Replay != "" || o.Hashes != "") && os.Getenv("VERIF_WORKER_ENV_SET") == "" {
+		// engines that need a special environment (E7: GORACE) get it by re-executing
+		prop := o.Property
+		if o.Replay != "" {
+			if b, err := os.ReadFile(o.Replay); err == nil {
+				var rf ReplayFile
+				if json.Unmarshal(b, &rf) == nil {
+					prop = rf.Property
+				}
+			}
+		}
+
+		if en, ok := propEngine[prop]; ok {
+			tmp, err := os.MkdirTemp("", "verif-env-")
+			if err == nil {
+				if env := WorkerEnv(engines[en], tmp, 0); env != nil {
+					cmd := exec.Command(os.Args[0], os.Args[1:]...)
+					cmd.Env = append(os.Environ(), env...)
+					cmd.Stdout, cmd.Stderr = os.Stdout, os.Stderr
+					err := cmd.Run()
+					os.RemoveAll(tmp)
+
+					if ee, ok := err.(*exec.ExitError); ok {
+						os.Exit(ee.ExitCode())
+					}
+
+					if err != nil {
+						harness("re-exec: %v", err)
+					}
+
+					os.Exit(0)
+				}
+
+				os.RemoveAll(tmp)
+			}
+		}
+	}
+
 	if o.Replay != "" {
 		os.Exit(replayMain(engines, propEngine, &o))
 	}
@@ -351,6 +389,20 @@ func minimise(eng Engine, o *Options, seed uint64, idx int, tape []uint32, v *Vi
 	best := append([]uint32{}, tape...)
 	tries := 0
 	deadline := time.Now().Add(60 * time.Second)
+
+	if ns, ok := eng.(interface{ NoInProcessShrink(sig string) bool }); ok && ns.NoInProcessShrink(sig) {
+		// the oracle cannot be re-evaluated in this process (the race detector
+		// reports a given pair of stacks once per process): keep the tape as found
+		t := NewReplay(seed, tape)
+		t.Keep = true
+		_ = t
+
+		return &ReplayFile{
+			Property: o.Property, Engine: eng.Name(), TreeHash: o.TreeHash, Seed: seed, RunIndex: idx,
+			Tape: best, OriginalLen: len(tape), ShrinkRuns: 0,
+			Signature: sig, Message: v.Message, EventHash: "not-comparable", Trace: []string{"(trace is printed by the replay)"},
+		}
+	}
 
 	try := func(c []uint32) bool {
 		if tries >= 2000 || time.Now().After(deadline) {
@@ -539,7 +591,7 @@ func replayMain(engines map[string]Engine, propEngine map[string]string, o *Opti
 		fmt.Printf("REPLAY-CLEAN property=%s: the recorded violation (%s) does not occur on this tree\n", rf.Property, rf.Signature)
 
 		return ExitOK
-	case v.Signature() != rf.Signature || hash != rf.EventHash:
+	case v.Signature() != rf.Signature || (hash != rf.EventHash && rf.EventHash != "not-comparable"):
 		if o.Verify {
 			fmt.Printf("REPLAY-DIVERGED property=%s: recorded %s/%s, replay %s/%s\n", rf.Property, rf.Signature, rf.EventHash, v.Signature(), hash)
 			return ExitHarness
@@ -606,7 +658,7 @@ func parentMain(eng Engine, o *Options) int {
 		lg := &strings.Builder{}
 		cmd.Stdout = lg
 		cmd.Stderr = lg
-		cmd.Env = append(os.Environ(), WorkerEnv(eng)...)
+		cmd.Env = append(os.Environ(), WorkerEnv(eng, tmp, w)...)
 
 		if err := cmd.Start(); err != nil {
 			harness("start worker: %v", err)
@@ -679,13 +731,32 @@ func parentMain(eng Engine, o *Options) int {
 		}
 
 		// The minimised tape must fail the same way in a fresh process.
-		vc := exec.Command(os.Args[0], "-replay", path, "-verify", "-known", o.KnownPath)
-		vc.Env = append(os.Environ(), WorkerEnv(eng)...)
-		vout, verr := vc.CombinedOutput()
+		attempts, reproduced := 1, 0
+		if flaky, ok := eng.(interface{ ReplayAttempts(sig string) int }); ok {
+			attempts = flaky.ReplayAttempts(chosen.Signature)
+		}
 
-		if ee, ok := verr.(*exec.ExitError); !ok || ee.ExitCode() != ExitViol {
+		var vout []byte
+
+		for a := 0; a < attempts; a++ {
+			vc := exec.Command(os.Args[0], "-replay", path, "-verify", "-known", o.KnownPath)
+			vc.Env = append(os.Environ(), WorkerEnv(eng, tmp, 1000+a)...)
+
+			var verr error
+
+			vout, verr = vc.CombinedOutput()
+			if ee, ok := verr.(*exec.ExitError); ok && ee.ExitCode() == ExitViol {
+				reproduced++
+			}
+		}
+
+		if reproduced == 0 && attempts == 1 {
 			fmt.Printf("%s", vout)
 			harness("minimised tape %s did not reproduce in a fresh process", path)
+		}
+
+		if attempts > 1 {
+			fmt.Printf("replay of the recorded schedule in fresh processes: the report was reproduced in %d of %d (the schedule replays exactly; whether the race detector reports depends on happens-before edges that sync.Pool inside fmt / encoding/json adds at random)\n", reproduced, attempts)
 		}
 
 		fmt.Printf("violation: %s\n  %s\n  seed=%d run=%d tape %d -> %d draws after %d shrink candidates; %d distinct workers failed\n",
@@ -723,9 +794,11 @@ func parentMain(eng Engine, o *Options) int {
 }
 
 // WorkerEnv lets an engine add environment variables for its workers (E7 sets GORACE).
-func WorkerEnv(eng Engine) []string {
-	if we, ok := eng.(interface{ WorkerEnv() []string }); ok {
-		return we.WorkerEnv()
+func WorkerEnv(eng Engine, tmp string, index int) []string {
+	if we, ok := eng.(interface {
+		WorkerEnv(tmp string, index int) []string
+	}); ok {
+		return append(we.WorkerEnv(tmp, index), "VERIF_WORKER_ENV_SET=1")
 	}
 
 	return nil
